@@ -24,15 +24,6 @@ theorem C13 (x : Elem) (m : Msg) (h : fromXml Generated.registry x = .ok m) :
     Spec.conformant m = true :=
   fromXml_conformant generated_regConf x m h
 
-/-- the number recogniser the model uses is the one written for exactly these
-regular expressions of `checks.number` (pin; a change of the literals shows up here) -/
-theorem number_regexps_pinned :
-    Generated.numberRegexps =
-      [s "^[\\-+]?\\d+$", s "^[\\-+]?\\d+\\.\\d+$", s "^[\\-+]?\\d+\\.$", s "^[\\-+]?\\.\\d+$",
-       s "^[\\-+]?\\d+[:; ]\\d{2}$", s "^[\\-+]?\\d+[:; ]\\d{2}\\.\\d+$",
-       s "^[\\-+]?\\d+[:; ]\\d{2}[:; ]\\d{2}$", s "^[\\-+]?\\d+[:; ]\\d{2}[:; ]\\d{2}\\.\\d+$"] := by
-  decide +kernel
-
 /-! non-vacuity: a well-formed element is accepted (the hypothesis of C13 is
 satisfiable), and hostile ones are rejected -/
 
